@@ -524,7 +524,9 @@ def _csp():
 
 def _nel():
     group = st.one_of(st.sampled_from(['network-errors', 'default', 'nel']),
-                      st.text(alphabet=QDTEXT + ' ', min_size=1, max_size=12))
+                      st.text(alphabet=QDTEXT + ' ', min_size=1, max_size=12),
+                      # JSON strings are Unicode; on the wire (an ASCII header) they travel as \uXXXX escapes
+                      st.sampled_from(['r\u00e9seau-errors', '\u65e5\u672c\u8a9e', 'gr\u00fc\u00dfe', 'a\u2028b']))
     fraction = st.one_of(st.none(), st.sampled_from([0, 1, 5, 10, 100, 500, 999, 1000]), st.integers(0, 1000))
     return st.builds(
         lambda g, a, i, s, f: _model('NEL', report_to=g, max_age=a, include_subdomains=i, success_fraction=s,
